@@ -98,13 +98,24 @@ def _tmpfile():
     return os.path.join(_tmpdir, "m%d.cmake" % os.getpid())
 
 
+GENERIC_PATTERN = False     # set per behaviour by the replay: spell the strip pattern as a character class
+
+
+def strip_pattern():
+    """the parameter-name strip pattern for the current PREFIX: literally "^_p_", or - same effect on every name the
+    programs use - the generic spelling "^_[^_]+_" (a leading underscore group); the latter only for prefixes of that shape"""
+    if GENERIC_PATTERN and PREFIX.startswith("_") and PREFIX.endswith("_") and "_" not in PREFIX[1:-1]:
+        return "^_[^_]+_"
+    return "^" + PREFIX
+
+
 def make_settings(inc=None, pats=None, trigger=TRIGGER, **rst):
     from cminx.config import Settings, InputSettings, RSTSettings
     kw = {}
     for f, v in (inc or {}).items():
         kw["include_undocumented_" + f] = bool(v)
     pats = pats or {}
-    pat = "^" + PREFIX
+    pat = strip_pattern()
     return Settings(input=InputSettings(
         kwargs_doc_trigger_string=trigger,
         function_parameter_name_strip_regex=pat if pats.get("f") else "",
@@ -146,7 +157,7 @@ def run_via_main(src, inc, pats, trigger):
         os.makedirs(os.path.join(base, "home", ".config", "cminx"))
         with open(os.path.join(base, "t.cmake"), "w", encoding="utf-8") as fh:
             fh.write(src)
-        pat = "^" + PREFIX
+        pat = strip_pattern()
         pats = pats or {}
         inp = {"include_undocumented_" + f: bool(v) for f, v in (inc or {}).items()}
         inp.update({"kwargs_doc_trigger_string": trigger,
@@ -436,6 +447,9 @@ def items_of(prog, cmds, seed, trigger=TRIGGER, first_line_text=False):
         doc = None
         if p["d"]:
             doc = ["doc w%d of item %d" % (i, i), "", "  indented w%d" % i, "form\x0cfeed and line\u2028separator w%d" % i]
+            if i % 3 == 0:
+                # a doccomment whose text is indented as a whole (renders as a block quote, in every layout)
+                doc = ["    deep w%d of item %d" % (i, i), "", "    second deep line w%d" % i]
             if c.get("trig"):
                 doc.append("%s opts: options w%d" % (trigger, i))
         if k in ("endfunction", "endmacro", "cpp_end_class") and stack:
